@@ -247,7 +247,8 @@ impl<I: Iterator> Iterator for Hinted<I> {
 /// Ways of consuming an iterator other than a plain `next()` loop: std adaptor and consumer
 /// methods that an iterator type may override (nth, last, count, fold, ...) or that are built on
 /// such overrides (skip -> nth, step_by -> nth, for_each -> fold, ...).
-pub const STYLES: [&str; 19] = ["next", "nth", "skip", "step_by(2)", "last", "fold", "count", "for_each", "take", "by_ref.nth+rest", "step_by(3)", "find", "max_by_key", "reduce", "skip_while+take_while", "by_ref.any+rest", "by_ref.all+rest", "by_ref.position+rest", "by_ref.find_map+rest"];
+pub const STYLES: [&str; 29] = ["next", "nth", "skip", "step_by(2)", "last", "fold", "count", "for_each", "take", "by_ref.nth+rest", "step_by(3)", "find", "max_by_key", "reduce", "skip_while+take_while", "by_ref.any+rest", "by_ref.all+rest", "by_ref.position+rest", "by_ref.find_map+rest",
+    "min_by_key", "max_by", "partition", "collect", "enumerate.nth", "zip", "peekable", "by_ref.take+rest", "by_ref.step_by(2).take+rest", "by_ref.try_for_each+rest"];
 
 /// Consume `it` in the given style.  Returns the items it yielded, the positions (in the
 /// iterator's own `next()` order) those items must be, and the value of `count()` if that was
@@ -391,6 +392,88 @@ pub fn drive<I: Iterator>(mut it: I, style: usize, j: usize, len0: usize) -> (Ve
                 v.push(x);
             }
             (v, ((j + 1).min(len0)..len0).collect(), None)
+        }
+        19 => {
+            // the first of the smallest keys wins: the first item
+            let mut c = 0usize;
+            let x = it.min_by_key(|_| {
+                c += 1;
+                c
+            });
+            (x.into_iter().collect(), if len0 > 0 { vec![0] } else { vec![] }, None)
+        }
+        20 => {
+            // "always less": the right operand wins every comparison, so the last item is returned
+            let x = it.max_by(|_, _| std::cmp::Ordering::Less);
+            (x.into_iter().collect(), if len0 > 0 { vec![len0 - 1] } else { vec![] }, None)
+        }
+        21 => {
+            let mut c = 0usize;
+            let (a, b): (Vec<I::Item>, Vec<I::Item>) = it.partition(|_| {
+                c += 1;
+                c % 2 == 1
+            });
+            let mut v = a;
+            v.extend(b);
+            let mut pos: Vec<usize> = (0..len0).step_by(2).collect();
+            pos.extend((1..len0).step_by(2));
+            (v, pos, None)
+        }
+        22 => (it.collect(), all, None),
+        23 => {
+            let x = it.enumerate().nth(j);
+            // the index Enumerate attaches is the number of items pulled before
+            let ok = x.as_ref().map_or(true, |(i, _)| *i == j);
+            let item: Vec<I::Item> = x.map(|(_, x)| x).into_iter().collect();
+            (item, if j < len0 && ok { vec![j] } else if j < len0 { vec![usize::MAX] } else { vec![] }, None)
+        }
+        24 => (it.zip(0usize..).map(|(x, _)| x).collect(), all, None),
+        25 => {
+            let mut p = it.peekable();
+            let _ = p.peek();
+            let _ = p.peek();
+            (p.collect(), all, None)
+        }
+        26 => {
+            let mut v: Vec<I::Item> = it.by_ref().take(j).collect();
+            for x in it {
+                v.push(x);
+            }
+            (v, all, None)
+        }
+        27 => {
+            // StepBy hands out the first item at once and then every second one; after k items it has pulled
+            // 2k-1 items from the underlying iterator, which continues behind them
+            let k = j.min(3);
+            let mut v: Vec<I::Item> = it.by_ref().step_by(2).take(k).collect();
+            let got = v.len();
+            let mut pos: Vec<usize> = (0..len0).step_by(2).take(k).collect();
+            for x in it {
+                v.push(x);
+            }
+            if k > 0 && got == k {
+                pos.extend((2 * k - 1).min(len0)..len0);
+            } else if k == 0 {
+                pos = all;
+            }
+            (v, pos, None)
+        }
+        28 => {
+            let mut v: Vec<I::Item> = Vec::new();
+            let mut c = 0usize;
+            let _ = it.by_ref().try_for_each(|x| {
+                v.push(x);
+                c += 1;
+                if c - 1 == j {
+                    Err(())
+                } else {
+                    Ok(())
+                }
+            });
+            for x in it {
+                v.push(x);
+            }
+            (v, all, None)
         }
         _ => {
             let mut v = Vec::new();
